@@ -24,10 +24,25 @@ pub mod xml {
 pub mod yaserde {
     use vstd::prelude::*;
     use crate::xml;
+    // the (derive-generated) XML text of a value / the value denoted by an XML text: uninterpreted
+    pub uninterp spec fn ser_string<T>(x: T) -> Result<Seq<char>, String>;
+    pub uninterp spec fn de_string<T>(s: Seq<char>) -> Result<T, String>;
     pub mod de { use vstd::prelude::*;
-        #[verifier::external_body] #[verifier::reject_recursive_types(R)] pub struct Deserializer<R> { _p: core::marker::PhantomData<R> } }
+        #[verifier::external_body] #[verifier::reject_recursive_types(R)] pub struct Deserializer<R> { _p: core::marker::PhantomData<R> }
+        #[verifier::external_body]
+        pub fn from_str<T: super::YaDeserialize>(s: &str) -> (r: Result<T, String>)
+            ensures r == super::de_string::<T>(s@)
+        { unimplemented!() }
+    }
     pub mod ser { use vstd::prelude::*;
-        #[verifier::external_body] #[verifier::reject_recursive_types(W)] pub struct Serializer<W> { _p: core::marker::PhantomData<W> } }
+        #[verifier::external_body] #[verifier::reject_recursive_types(W)] pub struct Serializer<W> { _p: core::marker::PhantomData<W> }
+        #[verifier::external_body]
+        pub fn to_string<T: super::YaSerialize>(model: &T) -> (r: Result<String, String>)
+            ensures r is Ok <==> super::ser_string::<T>(*model) is Ok,
+                    r is Ok ==> r->Ok_0@ == super::ser_string::<T>(*model)->Ok_0,
+                    r is Err ==> Err::<Seq<char>, String>(r->Err_0) == super::ser_string::<T>(*model),
+        { unimplemented!() }
+    }
 //# section: yaserde-traits
     // de_spec / ser_spec / ser_attrs_spec: what the type's (derive-generated) impl does to the reader /
     // writer / attribute list — uninterpreted for a generic T.
